@@ -565,6 +565,25 @@ def apply_edit(font, name, a):
                     gl.coordinates.translate((1 + k % 5, -(k % 3)))
                     break
         return font
+    if name == "glyfflat":
+        # a simple glyph squashed onto one horizontal line (a dash drawn as a zero-height outline: legal, and
+        # still a glyph with an outline), carrying the font's extreme top side bearing when there are
+        # vertical metrics: the vertical header's extents must count it
+        if "glyf" in font:
+            go = font.getGlyphOrder()
+            for j in range(len(go)):
+                g = go[(k + j) % len(go)]
+                gl = font["glyf"][g]
+                if gl.numberOfContours > 0 and len(gl.coordinates) > 1:
+                    y0 = gl.coordinates[0][1]
+                    for i_ in range(len(gl.coordinates)):
+                        gl.coordinates[i_] = (gl.coordinates[i_][0], y0)
+                    if "vmtx" in font:
+                        lo = min(t for _, t in font["vmtx"].metrics.values())
+                        adv, _ = font["vmtx"][g]
+                        font["vmtx"][g] = (adv, max(-32000, lo - 10 - k % 40))
+                    break
+        return font
     if name in ("glyfscale", "glyfunscale"):
         if "glyf" in font:
             go = font.getGlyphOrder()
